@@ -49,11 +49,10 @@ def XArgs.allPositional : XArgs → Bool
   | .nil => true
   | .cons name _ _ rest => name.isNone && rest.allPositional
 
-/-- `find_arg_value`: first argument whose name equals the parameter name — compared with `==`
-on the source spelling, i.e. **case-sensitively**. -/
+/-- `find_arg_value`: first argument whose name equals the parameter name ignoring (ASCII) case. -/
 def XArgs.find (p : String) : XArgs → Option XExpr
   | .nil => none
-  | .cons name _ e rest => if name = some p then some e else rest.find p
+  | .cons name _ e rest => if name.map String.toUpper = some p.toUpper then some e else rest.find p
 
 def XArgs.nth : XArgs → Nat → Option XExpr
   | .nil, _ => none
@@ -309,12 +308,11 @@ def evalX (ds : Defs) : Nat → Ctl → XStore → XExpr → XRes Val
           | (σ2, .error s) => (σ2, .error s)
           | (σ2, .ok b) => (σ2, applyBinary op a b)
     | .fld c f =>
-      -- `read_field` on a PROGRAM variable holding a struct (field names compared as written:
-      -- **case-sensitive**) or an FB instance
+      -- `read_field` on a PROGRAM variable holding a struct (field names compared ignoring case) or an FB instance
       match (if ctl.cur.isNone then getAgg σ c else none) with
       | some (.str fields) =>
-        match lookup f fields with
-        | some v => (σ, pure v)
+        match fields.find? (fun q => q.1.toUpper = f.toUpper) with
+        | some (_, v) => (σ, pure v)
         | none => (σ, fault .UndefinedField .fieldName)
       | some (.arr _ _ _) => (σ, fault .TypeMismatch .fieldOfNonStruct)
       | none =>
@@ -522,8 +520,8 @@ def execXStmt (ds : Defs) : Nat → Ctl → XStore → XStmt → XRes XFlow
       | (σ1, .ok v) =>
         match (if ctl.cur.isNone then getAgg σ1 s else none) with
         | some (.str fields) =>
-          match lookup f fields with
-          | some _ => (setAgg σ1 s (.str (insert f v fields)), .ok .cont)
+          match fields.find? (fun q => q.1.toUpper = f.toUpper) with
+          | some (g, _) => (setAgg σ1 s (.str (insert g v fields)), .ok .cont)
           | none => (σ1, fault .UndefinedField .fieldName)
         | some (.arr _ _ _) => (σ1, fault .TypeMismatch .fieldOfNonStruct)
         | none =>
